@@ -172,6 +172,10 @@ BROKEN_TOML = [
 
 BAD_EXPRESSIONS = ["MIT AND OR (", "( )", "( OR MIT", "( AND +", "( ) ) (", "MIT WITH", ")(", "MIT OR OR 0BSD", "( ( )", "()"]
 
+# a single byte that is not UTF-8, in places where the rest of the file stays perfectly well-formed
+NOT_UTF8_SPOTS = [("Jane Doe", b"Jan\xe9 Doe"), ("Jane Doe", b"Jane Doe \xff"), ("MIT OR 0BSD", b"MIT OR 0BSD\x80"), ("demo", b"d\xe9mo"),
+                  ("version = 1\n", b"version = 1\n# comment with a Latin-1 \xe9\n"), ("a.txt", b"\xe4.txt")]
+
 COMMANDS = ["lint", "lint-pool", "lint-file", "spdx", "annotate", "convert-dep5", "download-all"]
 
 
@@ -254,6 +258,9 @@ def generate(tier, seed):
         for how in ("named", "recursive"):
             cases.append({"kind": "batch", "n": n, "how": how})
     cases.append({"kind": "names", "k": 0})
+    for j in range(len(NOT_UTF8_SPOTS)):
+        for where in ("REUSE.toml", "sub/REUSE.toml", "dep5"):
+            cases.append({"kind": "not-utf8", "j": j, "where": where})
     for j in range(len(BAD_EXPRESSIONS)):
         cases.append({"kind": "cli-expression", "j": j})
     for layout in range(4):
@@ -372,6 +379,28 @@ def run_case(case, ctx):
                 judge(res, run_command(cmd, root), "grey", f"dep5 License: {bad!r}", cmd, names=("dep5",))
                 res.sigs.add(short_hash("cli-expression", bad, cmd))
             res.cell("cli-expression")
+        elif kind == "not-utf8":
+            old_s, new_b = NOT_UTF8_SPOTS[case["j"]]
+            where = case["where"]
+            if where == "dep5":
+                src = VALID_DEP5.replace("Upstream-Name: demo", "Upstream-Name: demo\nComment: version = 1")
+                if old_s == "version = 1\n":
+                    old_s, new_b = "Comment: version = 1", b"Comment: caf\xe9"
+                (root / ".reuse").mkdir()
+                target, names = root / ".reuse" / "dep5", ("dep5",)
+            else:
+                src = VALID_TOML
+                target, names = root / where, (where,)
+            if old_s not in src:
+                res.cell("not-utf8:spot-absent")
+                return res.out()
+            data = src.encode("utf-8").replace(old_s.encode("utf-8"), new_b, 1)
+            target.write_bytes(data)
+            fault = f"not-utf8:{case['j']}:{where}"
+            for cmd in ("lint", "lint-file", "spdx", "annotate", "download-all", "convert-dep5"):
+                judge(res, run_command(cmd, root), "broken", fault, cmd, names=names, detail=data.decode("utf-8", "replace")[:300])
+                res.sigs.add(short_hash(fault, cmd))
+            res.cell("not-utf8")
         elif kind == "names":
             # file *names* that are not UTF-8 (Latin-1 bytes from an old archive), ignored by Git
             k = case["k"]
